@@ -20,7 +20,7 @@ const W0: [f32; 6] = [0.5, -1.25, 2.0, -0.03125, 0.0, 7.0];
 pub fn meta(ctx: &Ctx) -> Meta {
     let d = depth(ctx);
     Meta {
-        rule: format!("optimizer kinds x hyper-parameter lattice (SGD 2, SGDM 8, Adam 4, AdamW 2, RMSprop 16 settings around the defaults, plus 11 away from them: momentum 0 (SGDM's documented default), epsilon 1e-12, epsilon 0.125, betas 0.5/0.9, alpha 0.9, learning rates 0.05..1, momentum 0.99 with dampening 0.5) x ALL gradient sequences over G={{0,+-1e-20,+-1e-3,+-0.5,+-1,+-1e4}} of length {} x ALL non-decreasing step-number sequences over {{1,2,3,5}} x ranks {{vector, matrix, 3-D kernel}} through create->validate->update; 18 element histories per tensor; run-length histories (constant / alternating / one-hot then zeros) to 2048 steps; 24-step varying-gradient histories on wide tensors (vector 70, matrix 2x35, kernel 2x5x7: row lengths that are not multiples of 4 or 8); re-validation: an optimizer validated two and three times against one validated once, bit-exact; slot-isolation: all 2^d interleavings of a slot-B update stream into slot A's for 4 slot pairs. Oracles: documented recurrences (f64 + f32 transcription, derived tolerance), rank differential bit-exact, isolation differential bit-exact, finiteness. A state is a node of the history tree (gradient prefix x step-number prefix); non-trivial = node whose history has a non-zero gradient", d),
+        rule: format!("optimizer kinds x hyper-parameter lattice (SGD 2, SGDM 8, Adam 4, AdamW 2, RMSprop 16 settings around the defaults, plus 13 away from them: beta1 = 1/2 (first moment cancelling exactly), momentum 0 (SGDM's documented default), epsilon 1e-12, epsilon 0.125, betas 0.5/0.9, alpha 0.9, learning rates 0.05..1, momentum 0.99 with dampening 0.5) x ALL gradient sequences over G={{0,+-1e-20,+-1e-3,+-0.5,+-1,+-1e4}} of length {} x ALL non-decreasing step-number sequences over {{1,2,3,5}} x ranks {{vector, matrix, 3-D kernel}} through create->validate->update; 18 element histories per tensor; run-length histories (constant / alternating / one-hot then zeros) to 2048 steps; 24-step varying-gradient histories on wide tensors (vector 70, matrix 2x35, kernel 2x5x7: row lengths that are not multiples of 4 or 8); re-validation: an optimizer validated two and three times against one validated once, bit-exact; slot-isolation: all 2^d interleavings of a slot-B update stream into slot A's for 4 slot pairs. Oracles: documented recurrences (f64 + f32 transcription, derived tolerance), rank differential bit-exact, isolation differential bit-exact, finiteness. A state is a node of the history tree (gradient prefix x step-number prefix); non-trivial = node whose history has a non-zero gradient", d),
         bound: format!("history depth {} complete for the alphabet; long histories 2048 steps for 33 patterns per setting", d),
         exhaustive: true,
         assumptions: vec![
@@ -66,6 +66,9 @@ pub fn settings() -> Vec<OptSpec> {
     // large learning rates, heavy dampening
     v.push(OptSpec::Sgd { lr: 1.0, decay: Some(0.1) });
     v.push(OptSpec::Sgdm { lr: 0.5, momentum: 0.99, dampening: 0.5, decay: None });
+    // beta1 = 1/2 without decay: gradient histories such as 1, -0.5 cancel the first moment EXACTLY while the second stays
+    v.push(OptSpec::Adam { lr: 0.01, b1: 0.5, b2: 0.9, eps: 1e-8, decay: None });
+    v.push(OptSpec::AdamW { lr: 0.01, b1: 0.5, b2: 0.9, eps: 1e-8, decay: 0.01 });
     // an explicit epsilon far below the default (visible on the tiny gradients of the alphabet)
     v.push(OptSpec::Adam { lr: 0.001, b1: 0.9, b2: 0.999, eps: 1e-12, decay: None });
     v.push(OptSpec::AdamW { lr: 0.001, b1: 0.9, b2: 0.999, eps: 1e-12, decay: 0.01 });
